@@ -80,6 +80,7 @@ pub struct St {
     pub root_w: Vec<u32>,
     pub diverged: bool,
     pub quiet_survey: bool,
+    pub fail_next: bool, // the running try_map_root callback returns Err
 }
 
 pub fn phase_name(p: CollectionPhase) -> &'static str {
@@ -127,7 +128,19 @@ impl St {
             root_w: Vec::new(),
             diverged: false,
             quiet_survey: false,
+            fail_next: false,
         }
+    }
+
+    /// The callback is about to unwind (or to return Err): its body is over.  If the entry
+    /// point consumes the arena, everything is dropped while the unwind leaves it.
+    pub fn unwind_point(&self, consumes: bool) {
+        ev!("{{\"ev\":\"cb_unwind\",\"a\":{},\"consumes\":{}}}", self.id, consumes);
+    }
+
+    pub fn panic_now(&self, consumes: bool) -> ! {
+        self.unwind_point(consumes);
+        std::panic::resume_unwind(Box::new(InjectedFault))
     }
 
     pub fn serial_of(&self, model: &str) -> Option<u32> {
@@ -753,7 +766,7 @@ impl World {
         let panicked = r.is_err();
         self.drain_releases();
         ev!(
-            "{{\"ev\":\"cb_end\",\"a\":{},\"kind\":\"mutate\",\"panicked\":{},\"msg\":{},{}}}",
+            "{{\"ev\":\"cb_end\",\"a\":{},\"kind\":\"mutate\",\"panicked\":{},\"consumed\":false,\"msg\":{},{}}}",
             self.st.id,
             panicked,
             jstr(&r.err().map(|e| panic_message(&*e)).unwrap_or_default()),
@@ -798,7 +811,7 @@ impl World {
                 let r = catch_unwind(AssertUnwindSafe(|| {
                     arena.try_map_root::<Rootable![Root<'_>], ()>(|mc, mut root| {
                         f(st, mc, &mut root);
-                        Ok(root)
+                        if st.fail_next { Err(()) } else { Ok(root) }
                     })
                 }));
                 match r {
@@ -812,15 +825,27 @@ impl World {
             }
         };
         let panicked = r.is_err();
+        let consumed = self.arena.is_none();
         self.drain_releases();
         ev!(
-            "{{\"ev\":\"cb_end\",\"a\":{},\"kind\":\"{}\",\"panicked\":{},\"msg\":{},{}}}",
+            "{{\"ev\":\"cb_end\",\"a\":{},\"kind\":\"{}\",\"panicked\":{},\"consumed\":{},\"msg\":{},{}}}",
             self.st.id,
             via.name(),
             panicked,
+            consumed,
             jstr(&r.err().map(|e| panic_message(&*e)).unwrap_or_default()),
             self.state_fields()
         );
+        if consumed {
+            // the arena was dropped while unwinding out of map_root / try_map_root
+            ev!(
+                "{{\"ev\":\"drop_end\",\"a\":{},\"panicked\":false,\"count\":{},\"debtQ\":{},\"outstanding\":{}}}",
+                self.st.id,
+                self.metrics.total_gc_count() as i64,
+                self.debt_q(),
+                ALLOC.outstanding()
+            );
+        }
         !panicked
     }
 
@@ -964,4 +989,53 @@ impl World {
 
 pub enum FinOp {
     Resurrect(String),
+}
+
+/// A constructor callback that allocates `n` objects and then fails (C11): `Arena::new` with a
+/// panicking callback, or `Arena::try_new` with a callback returning Err.  Everything it
+/// allocated must be destructed and released.
+pub static AUX_SERIAL: std::sync::atomic::AtomicU32 = std::sync::atomic::AtomicU32::new(100_000);
+
+pub fn failed_new(_serial_base: u32, n: usize, mode: &str) {
+    let id = 9;
+    let serial_base = AUX_SERIAL.fetch_add(100, std::sync::atomic::Ordering::Relaxed);
+    ev!("{{\"ev\":\"arena_new\",\"a\":{}}}", id);
+    let mut st = St::new(id, serial_base);
+    ev!("{{\"ev\":\"cb_begin\",\"a\":{},\"kind\":\"new\",\"label\":\"{}\"}}", id, mode);
+    let stp = &mut st;
+    let r = catch_unwind(AssertUnwindSafe(|| {
+        if mode == "panic" {
+            let _a = MyArena::new(|mc| {
+                let mut root = Root { strong: Vec::new(), weak: Vec::new(), sets: Vec::new() };
+                for i in 0..n {
+                    let p = stp.alloc(mc, Kind::N, &format!("x{i}"));
+                    if i % 2 == 0 {
+                        root.strong.push(p);
+                    }
+                }
+                stp.unwind_point(true);
+                std::panic::resume_unwind(Box::new(InjectedFault))
+            });
+        } else {
+            let _a = MyArena::try_new(|mc| {
+                let mut root = Root { strong: Vec::new(), weak: Vec::new(), sets: Vec::new() };
+                for i in 0..n {
+                    let p = stp.alloc(mc, Kind::N, &format!("x{i}"));
+                    if i % 2 == 0 {
+                        root.strong.push(p);
+                    }
+                }
+                stp.unwind_point(true);
+                if n < usize::MAX { Err(()) } else { Ok(root) }
+            });
+        }
+    }));
+    for rl in ALLOC.drain_releases() {
+        ev!(
+            "{{\"ev\":\"release\",\"o\":{},\"req\":[{},{}],\"rel\":[{},{}],\"double\":{},\"guard_ok\":{}}}",
+            rl.tag, rl.req.0, rl.req.1, rl.rel.0, rl.rel.1, rl.double, rl.guard_ok
+        );
+    }
+    ev!("{{\"ev\":\"cb_end\",\"a\":{},\"kind\":\"new\",\"panicked\":{},\"consumed\":true,\"msg\":\"injected\"}}", id, r.is_err());
+    ev!("{{\"ev\":\"drop_end\",\"a\":{},\"panicked\":false,\"count\":0,\"debtQ\":0,\"outstanding\":-1}}", id);
 }
